@@ -86,4 +86,10 @@ def mintFeeMsgs (k : Nat) (price b : Nat) (dev : Addr) : List Msg :=
   let fee := mulFloor price (bps b)
   if fee = 0 then [] else distributeMintFees ⟨NATIVE, fee⟩ (callerFeatured k) (if callerHasDev k then some dev else none)
 
+/-- the creation-fee routing of the four factories' `execute_create_minter` (identical in all four): a native creation fee is
+fair-burned on behalf of the factory (`checked_fair_burn(info, env, fee, None)`), a fee in any other denom goes in full to the
+launchpad DAO (`transfer_funds_to_launchpad_dao`). Which branch is taken depends on the CREATION FEE's denom only. -/
+def creationFeeMsgs (self : Addr) (feeDenom fee : Nat) (funds : List Coin) : Except Err (List Msg) :=
+  if feeDenom = NATIVE then checkedFairBurn funds self fee none else transferFundsToLaunchpadDao funds fee feeDenom
+
 end LP.Sg1
